@@ -219,6 +219,40 @@ def generated_inputs(tmp):
         with open(path, "w") as f:
             f.write(enumio.emit_pdb(t))
         out.append(path)
+    out.extend(twin_inputs(tmp))
+    return out
+
+
+def twin_inputs(tmp):
+    """Pairs of two-nucleotide structures with identical residue identities and letters but different geometry (the same edges paired once in cis
+    and once in trans; committed placements of mc/data/g2_seeds.json): whatever one file leaves behind in the process must not leak into the other -
+    the forward and the reversed battery run process them in opposite orders."""
+    from mc import enumio
+    from mc.props import ann_families as fam
+
+    with open(os.path.join(os.path.dirname(os.path.abspath(__file__)), "data", "g2_seeds.json")) as f:
+        seeds = json.load(f)
+    out = []
+    k = 0
+    for key in sorted(seeds):
+        center = key.split(":")[0]
+        by = {}
+        for sd in seeds[key]:
+            by.setdefault((sd["l2"], sd["lw"][1:]), {}).setdefault(sd["lw"][0], sd)
+        for (l2, edges), ct in sorted(by.items()):
+            if "c" in ct and "t" in ct and k < 6:
+                k += 1
+                for which in ("c", "t"):
+                    sd = ct[which]
+                    s3 = fam.structure_of(dict(g=1, l1=center, l2=l2, r=sd["r"], th=sd["th"], ph=sd["ph"], flip=sd["flip"], idmode=0))
+                    t = []
+                    for r in s3.residues:
+                        for a in r.atoms:
+                            t.append(enumio.atom(len(t) + 1, a.name, r.name, r.chain, r.number, "%.3f" % a.x, "%.3f" % a.y, "%.3f" % a.z, element=a.name[0]))
+                    path = os.path.join(tmp, "gen-twin%d-%s%s-%s.pdb" % (k, center, l2, "cis" if which == "c" else "trans"))
+                    with open(path, "w") as fh:
+                        fh.write(enumio.emit_pdb(t))
+                    out.append(path)
     return out
 
 
